@@ -740,8 +740,16 @@ class Datatype(Item):
         theory.thy.add_type_sig(self.name, len(self.args))
 
         try:
+            T = TConst(self.name, *(TVar(arg) for arg in self.args))
             for constr in data['constrs']:
                 constr_type = parser.parse_type(constr['type'])
+                argT, resT = constr_type.strip_type()
+                if resT != T:
+                    raise ItemException("Datatype %s: constructor %s does not construct %s" % (
+                        self.name, constr['name'], T))
+                if len(argT) != len(constr['args']):
+                    raise ItemException("Datatype %s: constructor %s: names of arguments do not match its type" % (
+                        self.name, constr['name']))
                 self.constrs.append({
                     'name': constr['name'],
                     'type': constr_type,
